@@ -653,3 +653,41 @@ def _(E, p):
     f = E.arr("f", np.cos(r.points))
     out += [r, r.integrate(f)]
     return out
+
+
+# ---- operations that raise by design: whatever they did before raising must be undone ----------------------------
+
+
+@entry("invalid_calls", 2.5)
+def _(E, p):
+    """Each variant is rejected by the library (ValueError / TypeError) - possibly after part of the work was done.
+    'After any public operation returns (or raises)' the caller's objects must be unchanged."""
+    from grid.atomgrid import AtomGrid
+    from grid.basegrid import Grid
+    from grid.becke import BeckeWeights
+    from grid.molgrid import MolGrid
+    from grid.ode import solve_ode_bvp
+    from grid.onedgrid import GaussLegendre
+    from grid.periodicgrid import PeriodicGrid
+    from grid.rtransform import BeckeRTransform
+
+    v = p % 6
+    if v == 0:
+        g = Grid(E.arr("points", _pts3(10, 130)), E.arr("weights", _wts(10, 131)))
+        return [g.moments(2, E.arr("centers", _pts3(2, 132)[:, :2]), E.arr("func_vals", _rs(133).rand(10)), "pure")]
+    if v == 1:
+        return [AtomGrid(_rgrid(5), degrees=E.lst("degrees", [3, 5, 7]), center=E.arr("center", np.zeros(3)))]  # wrong number of degrees
+    if v == 2:
+        atnums, atcoords = _two_atoms(E)
+        ags = E.lst("atgrids", [AtomGrid(_rgrid(3), degrees=[3], center=atcoords[i].copy()) for i in range(2)])
+        return [MolGrid(atnums, ags, E.arr("aim_weights", np.ones(7)), store=True)]  # wrong size
+    if v == 3:
+        x = E.arr("x", np.linspace(0, 1, 8))
+        fx = E.cb("fx", lambda t: np.array(t, dtype=float), identity=True)
+        return [solve_ode_bvp(x, fx, E.lst("coeffs", [1.0, 0.0, 1.0]), E.lst("bd_cond", [[0, 0, 0.0]]))]  # too few conditions
+    if v == 4:
+        pts = E.arr("points", _pts3(6, 134, 3.0))
+        return [PeriodicGrid(pts, E.arr("weights", _wts(6, 135)), E.arr("realvecs", np.array([[1.0, 0, 0], [2.0, 0, 0]])), wrap=True)]  # singular cell
+    bw = BeckeWeights()
+    atnums, atcoords = _two_atoms(E)
+    return [bw.generate_weights(E.arr("points", _pts3(8, 136)), atcoords, atnums, select=E.lst("select", [0, 1]), pt_ind=E.lst("pt_ind", [0]))]
